@@ -1091,4 +1091,56 @@ theorem labelHashes_eq {η : Type} {h : Cell α → η} (hh : HashRespects veq h
 
 end HK2
 
+/-! ### the identity cache of the tree walk -/
+
+section Cache
+variable {ν δ κ α : Type} [DecidableEq ν] [DecidableEq δ] [DecidableEq κ] (veq : α → α → Bool)
+
+/-- every cached pair of ids stands for index objects that compare equal -/
+def CacheOk (o : Opts) (ida idb : Level ν δ κ α → Nat) (cache : List (Nat × Nat)) : Prop :=
+  ∀ p ∈ cache, ∀ x y, ida x = p.1 → idb y = p.2 → x.index.equals veq y.index o = true
+
+theorem walkC_eq_walk (o : Opts) (ida idb : Level ν δ κ α → Nat) (ha : IdSound ida) (hb : IdSound idb) :
+    ∀ (fuel : Nat) (cache : List (Nat × Nat)) (sa sb : List (Level ν δ κ α)),
+    CacheOk veq o ida idb cache → walkC veq o ida idb fuel cache sa sb = walk veq o fuel sa sb
+  | 0, _, _, _, _ => by simp [walkC, walk]
+  | fuel + 1, cache, [], sb, _ => by cases sb <;> simp [walkC, walk]
+  | fuel + 1, cache, _ :: _, [], _ => by simp [walkC, walk]
+  | fuel + 1, cache, a :: sa, b :: sb, hc => by
+    unfold walkC walk
+    dsimp only
+    by_cases hf : cache.contains (ida a, idb b) = true
+    · -- cached: the index objects were verified before
+      have he : a.index.equals veq b.index o = true :=
+        hc _ (List.contains_iff_mem.mp hf) a b rfl rfl
+      simp only [hf, Bool.not_true, Bool.false_and, Bool.false_eq_true, if_false, if_true, he]
+      split
+      · exact walkC_eq_walk o ida idb ha hb fuel cache sa sb hc
+      · split
+        · rfl
+        · exact walkC_eq_walk o ida idb ha hb fuel cache _ _ hc
+    · have hf' : cache.contains (ida a, idb b) = false := by simpa using hf
+      simp only [hf', Bool.not_false, Bool.true_and, Bool.false_eq_true, if_false]
+      by_cases he : a.index.equals veq b.index o = true
+      · have hc' : CacheOk veq o ida idb ((ida a, idb b) :: cache) := by
+          intro p hp x y hx hy
+          simp only [List.mem_cons] at hp
+          rcases hp with rfl | hp
+          · rw [ha x a hx, hb y b hy]; exact he
+          · exact hc p hp x y hx hy
+        simp only [he, Bool.not_true, Bool.false_eq_true, if_false]
+        split
+        · exact walkC_eq_walk o ida idb ha hb fuel _ sa sb hc'
+        · split
+          · rfl
+          · exact walkC_eq_walk o ida idb ha hb fuel _ _ _ hc'
+      · have he' : a.index.equals veq b.index o = false := by simpa using he
+        simp [he']
+
+theorem Level.equalsC_eq (o : Opts) (ida idb : Level ν δ κ α → Nat) (ha : IdSound ida) (hb : IdSound idb)
+    (a b : Level ν δ κ α) : Level.equalsC veq ida idb a b o = Level.equals veq a b o := by
+  unfold Level.equalsC Level.equals
+  rw [walkC_eq_walk veq o ida idb ha hb _ [] _ _ (by intro p hp; cases hp)]
+end Cache
+
 end SF.Equals
